@@ -30,9 +30,11 @@ POSITIONS = {
     "nested": "struct N {{ {T} *p; uint8 k; }};\nstruct S {{ uint8 h; N n; }};",
     "mixed": "struct S {{ {T} *p; uint16 *q; char *s; uint8 t; }};",
     "union": "union UU {{ {T} *p; uint8 raw[2]; }};\nstruct S {{ uint8 h; UU u; uint8 t; }};",
+    "structarray": "struct N {{ {T} *p; uint8 k; }};\nstruct S {{ uint8 h; N ns[2]; uint8 t; }};",
 }
 BUFLEN = 36
 CONTENTS = [bytes(((i * 23 + 5) % 251) + 1 if i % 7 else 0 for i in range(BUFLEN)), bytes([2, 0x41, 0x42, 0, 0, 3, 0x61, 0x62, 0x63] * 4)]
+LONG = bytes(36) + bytes(0x21 + (i % 90) for i in range(70)) + b"\x00" + bytes(0x41 + (i % 26) for i in range(140)) + b"\x00\x00\x07"  # strings of 70 and 140 bytes
 WIDTHS = ("uint8", "uint16", "uint32", "uint64")
 
 
@@ -62,6 +64,8 @@ def get_ptrs(v, pos):
         return [("n.p", v.n.p)]
     if pos == "union":
         return [("u.p", v.u.p)]
+    if pos == "structarray":
+        return [("ns[0].p", v.ns[0].p), ("ns[1].p", v.ns[1].p)]
     return [("p", v.p)]
 
 
@@ -96,6 +100,9 @@ def check_case(tkey, pos, width, endian, compiled, res: JobResult, tier):
     elif pos == "union":
         slot_off = [fields["u"].offset]
         ptype = cs.UU.fields["p"].type
+    elif pos == "structarray":
+        slot_off = [fields["ns"].offset + cs.N.fields["p"].offset, fields["ns"].offset + len(cs.N) + cs.N.fields["p"].offset]
+        ptype = cs.N.fields["p"].type
     elif pos == "array":
         slot_off = [fields["arr"].offset, fields["arr"].offset + psz]
         ptype = fields["arr"].type.type
@@ -107,7 +114,11 @@ def check_case(tkey, pos, width, endian, compiled, res: JobResult, tier):
         return
     size = len(S)
     maxaddr = min(BUFLEN + 1, (1 << (8 * psz)) - 1)
-    for ci, content in enumerate(CONTENTS):
+    contents = list(CONTENTS)
+    if tkey in ("char", "uint8*", "uint8") and pos in ("only", "array"):
+        contents.append(LONG)  # long NUL-terminated strings
+    for ci, content in enumerate(contents):
+        maxaddr = min(len(content) + 1, (1 << (8 * psz)) - 1)
         for addr in range(0, maxaddr + 1):
             buf = bytearray(content)
             for k, so in enumerate(slot_off):
@@ -247,6 +258,21 @@ def deref_checks(cs, S, v, st, p, pname, a, tkey, buf, cfg, size, issue, res, ad
             return False
         if not observe(q, a + delta, f"({pname}{delta:+d})"):
             return False
+    # every arithmetic operator yields a pointer of the same type on the same stream
+    import operator as _op
+
+    for name, fn, arg in (("*", _op.mul, 2), ("//", _op.floordiv, 2), ("%", _op.mod, 5), ("<<", _op.lshift, 1), (">>", _op.rshift, 1), ("&", _op.and_, 0xFE), ("|", _op.or_, 1), ("^", _op.xor, 3)):
+        q = fn(p, arg)
+        expv = fn(a, arg)
+        if type(q) is not type(p) or int(q) != expv or getattr(q, "_stream", None) is not getattr(p, "_stream", None):
+            issue("arith:type-or-value", f"{pname} {name} {arg} = {q!r} of type {type(q).__name__}, expected {type(p).__name__} @ {expv} on the same stream", addr=addr, content=ci)
+            return False
+    q = p | 1
+    if not observe(q, a | 1, f"({pname}|1)"):
+        return False
+    q = p & 0xFE
+    if not observe(q, a & 0xFE, f"({pname}&0xFE)"):
+        return False
     # reading on after dereferencing: the stream continues where the structure ended
     nxt = st.read(1)
     st.seek(size)
